@@ -25,6 +25,8 @@ func init() {
 }
 
 func runC11(c *Ctx) {
+	c.Rule("C11.O12", "no address of a (go 1.18) loop variable escapes its iteration in the shutdown / hand-over code", 1)
+	defer loopVarEscapes(c, "C11.O12", []string{"pkg/server", "pkg/network", "pkg/stagemanager"})
 	c.Rule("C11.O11", "frozen lockset: the listener state is only read and written under the listener mutex", 4)
 	defer runLockTables(c, "C11", nil)
 	c.Assumptions = append(c.Assumptions, "utils.GoWithRecover runs the given function on a new goroutine once", "the operating system delivers the listener file descriptors passed over the transfer socket intact")
